@@ -57,6 +57,7 @@ type Contract struct {
 	ErrorIsValue bool // the error result is the function's product (a conversion), not a failure report
 	GuardedFree map[string]string // captured variable -> captured mutex that must be held when it is accessed
 	RangeOver  map[int]*Clause // loop ordinal -> required `for range <name>` form
+	Exhaustive  map[int]*Clause     // loop -> the loop is left only when its range is exhausted, or by a return
 	CallAsserts map[string][]*Clause // callee -> assertions checked just before each call of it
 	ModAt      map[string][]string // component spelling -> address expressions (only these objects change)
 	HasMods    bool
@@ -76,6 +77,13 @@ type Contract struct {
 	AssumeUserFn bool
 	File       string
 	Line       int
+}
+
+// CallersDecl: the complete list of functions that may call a function directly (a protocol the callers share).
+type CallersDecl struct {
+	Pkg, Callee string
+	Callers     []string
+	Props       []string
 }
 
 type GlobalDecl struct {
@@ -238,6 +246,24 @@ func (g *Gen) loadContractFile(path string) error {
 				}
 			}
 			g.globalsDecl[pkg+"."+f[0]] = gd
+		case "callers-of":
+			// callers-of <callee> [Cnn,...] : f1 f2 ...   -- the functions allowed to call <callee> directly
+			f := strings.Fields(rest)
+			if len(f) < 3 {
+				return fmt.Errorf("%s:%d: bad callers-of", path, ln)
+			}
+			cd := &CallersDecl{Pkg: pkg, Callee: f[0]}
+			for _, w := range f[1:] {
+				if m := regexp.MustCompile(`^\[([A-Z0-9, ]+)\]:?$`).FindStringSubmatch(w); m != nil {
+					cd.Props = append(cd.Props, parseProps(m[1])...)
+					continue
+				}
+				if w == ":" {
+					continue
+				}
+				cd.Callers = append(cd.Callers, w)
+			}
+			g.callersDecl = append(g.callersDecl, cd)
 		case "lemma":
 			cl, err := parseClause("lemma", rest, path, ln)
 			if err != nil {
@@ -293,6 +319,16 @@ func (g *Gen) loadContractFile(path string) error {
 				}
 				cl.Loop = k
 				cur.RangeOver[k] = cl
+			case "exhaustive":
+				cl, err := parseClause("exhaustive", rest3, path, ln)
+				if err != nil {
+					return err
+				}
+				cl.Loop = k
+				if cur.Exhaustive == nil {
+					cur.Exhaustive = map[int]*Clause{}
+				}
+				cur.Exhaustive[k] = cl
 			case "modifies":
 				cur.LoopMods[k] = append(cur.LoopMods[k], strings.Fields(rest3)...)
 			default:
